@@ -215,6 +215,43 @@ Proof.
     symmetry. apply multi_col_cons. cbn [tX]. apply Hp; assumption.
 Qed.
 
+(* every placement inside the sequence forces every spacing below L: the code's separate
+   rejection of a spacing >= L is a consequence of the span test *)
+Lemma motif_len_pos X m : motif_ok X m = true -> (1 <= tL m)%nat.
+Proof.
+  intros H. destruct (motif_ok_split _ _ H) as (_ & Hv & _). destruct m as [a l d].
+  destruct (valid_t_shape _ _ _ Hv) as (_ & H1 & _). exact H1.
+Qed.
+
+Lemma spans_in_spacing X L : forall ms sp p,
+  forallb (motif_ok X) ms = true -> length sp = (length ms - 1)%nat ->
+  spans_in L ms (positions ms sp p) = true ->
+  forallb (fun l => l <? Z.of_nat L) sp = true.
+Proof.
+  induction ms as [|m ms IH]; intros sp p HMs Hsp H.
+  - destruct sp; [reflexivity | cbn in Hsp; lia].
+  - destruct ms as [|m' ms].
+    + destruct sp; [reflexivity | cbn in Hsp; lia].
+    + destruct sp as [|s sp]; [cbn in Hsp; lia|].
+      cbn [forallb] in HMs. apply andb_true_iff in HMs as [HM HMs].
+      pose proof (motif_len_pos _ _ HM) as Hlen.
+      change (positions (m :: m' :: ms) (s :: sp) p)
+        with (p :: positions (m' :: ms) sp (p + Z.of_nat (tL m) + s)) in H.
+      set (p' := p + Z.of_nat (tL m) + s) in *.
+      change (spans_in L (m :: m' :: ms) (p :: positions (m' :: ms) sp p'))
+        with (span_in L p (tL m) && spans_in L (m' :: ms) (positions (m' :: ms) sp p')) in H.
+      apply andb_true_iff in H as [H1 H2].
+      assert (Hsp' : length sp = (length (m' :: ms) - 1)%nat) by (cbn in *; lia).
+      cbn [forallb]. rewrite (IH sp p' HMs Hsp' H2), andb_true_r.
+      destruct ms as [|m'' ms]; [destruct sp as [|? ?]; [|cbn in Hsp'; lia]|
+                                 destruct sp as [|s' sp]; [cbn in Hsp'; lia|]];
+        cbn [positions spans_in combine forallb fst snd hd tl] in H2;
+        apply andb_true_iff in H2 as [H2 _];
+        unfold span_in in H1, H2;
+        apply andb_true_iff in H1 as [H1 _]; apply andb_true_iff in H2 as [_ H2];
+        apply Z.ltb_lt; apply Z.leb_le in H1, H2; subst p'; lia.
+Qed.
+
 (* ---------- the call ---------- *)
 
 Lemma multi_spec X ms sp start :
@@ -227,7 +264,15 @@ Proof.
   apply Nat.ltb_lt in Hn. apply Nat.eqb_eq in Hsp.
   unfold multisubstitute. cbn [tA tL tX].
   assert (E1 : (Z.of_nat (length sp) =? Z.of_nat (length ms) - 1) = true) by (apply Z.eqb_eq; lia).
-  rewrite E1, Hspc. cbn [guard bind].
+  rewrite E1. cbn [guard bind].
+  destruct (forallb (fun l => (0 <=? l) && (l <? Z.of_nat L)) sp) eqn:G; cbn [guard bind].
+  2:{ (* some spacing >= L: the model rejects; so must the spec, through the span test *)
+      match goal with |- (if ?c then _ else _) = true => destruct c eqn:Hall end; [|reflexivity].
+      exfalso. pose proof (spans_in_spacing _ L ms sp _ HMs Hsp Hall) as Hlt.
+      assert (G' : forallb (fun l => (0 <=? l) && (l <? Z.of_nat L)) sp = true).
+      { apply forallb_forall. intros l Hl.
+        rewrite forallb_forall in Hspc, Hlt. rewrite (Hspc l Hl), (Hlt l Hl). reflexivity. }
+      congruence. }
   set (n := sumZ sp + sumZ (map (fun m => Z.of_nat (tL m)) ms)).
   set (d := Z.of_nat L / 2 - n / 2).
   assert (Main : forall p,
